@@ -21,21 +21,42 @@ VM_PROGRAMS = [
     ("self ^", "f = #'int { | =0 => 0 | [$, 1] __integer_subtract__ ^ }, %d f"),
     ("self ^ in nested block", "f = #'int { | =0 => 0 | =n => { m = [n, 1] __integer_subtract__, { | m =0 => 0 | m ^ } } }, %d f"),
     ("pair accumulator", "f = #['int, 'int] { | =[0, acc] => acc | =[n, acc] => [[n, 1] __integer_subtract__, [acc, n] __integer_add__] ^ }, [%d, 0] f"),
-    ("named ^g (mutual)", "g = #'int { | =0 => 0 | [$, 1] __integer_subtract__ ^g }, f = #'int { ^g }, %d f"),
+    ("named ^g", "g = #'int { | =0 => 0 | [$, 1] __integer_subtract__ ^ }, f = #'int { ^g }, %d f"),
     ("closure capture", "k = 1, f = #'int { | =0 => 0 | [$, k] __integer_subtract__ ^ }, %d f"),
     ("binary dropped per iteration", "f = #['int, 'bin] { | =[0, b] => b | =[n, b] => [[n, 1] __integer_subtract__, [b, 0x00] __binary_concat__ [~, 0, 1] __binary_slice__] ^ }, [%d, 0xff] f"),
+    # named / ripple tail calls whose callee is a closure capturing a binary built at run time:
+    # the iterator library advances with `[..] self ^~`; every skipped element's closure is dropped
+    ("ripple ^~ to closures capturing run-time binaries (%iter.filter)",
+     "[[0, [0x01, 0x02] __binary_concat__], #['int, 'bin] { =[i, b], [i, %d] __integer_compare__ =-1, "
+     "[[i, b], [[i, 1] __integer_add__, [b, 0x03] __binary_concat__ [~, 1, 3] __binary_slice__]] }] %%iter.unfold "
+     "[~, #['int, 'bin] { =[i, _], [i, %d] __integer_compare__ =1 }] %%iter.filter [~, 0] %%iter.nth"),
+    ("ripple ^~ to closures capturing run-time binaries (%iter.drop)",
+     "[[0, [0x01, 0x02] __binary_concat__], #['int, 'bin] { =[i, b], [i, %d] __integer_compare__ =-1, "
+     "[[i, b], [[i, 1] __integer_add__, [b, 0x03] __binary_concat__ [~, 1, 3] __binary_slice__]] }] %%iter.unfold "
+     "[~, %d] %%iter.drop [~, 0] %%iter.nth"),
 ]
 with QV() as qv:
     measured = 0
     for label, tmpl in VM_PROGRAMS:
         peaks = []
         for n in (40, 2000):
-            c = qv.compile(tmpl % n, dump=False)
+            src = tmpl % ((n, n - 2) if tmpl.count("%d") == 2 else n)
+            c = qv.compile(src, dump=False)
             if not c.get("ok"):
                 peaks = None
                 break
             r = qv.req(op="run", h=c["h"], profile=True, max_steps=20_000_000)
-            if "value" not in r.get("result", {}):
+            if r.get("panic") and "refcount" in str(r.get("panic")):
+                # the debug build's own accounting check (check_refcounts at process completion):
+                # a binary dropped by an earlier iteration is still counted as referenced
+                rep.obligations += 1
+                rep.violation("vm-refcount:%s" % label,
+                              "tail-recursive program (%s) breaks the executor's reference-count invariant at N=%d: %s; program: %s" % (
+                                  label, n, str(r.get("panic"))[:200], src),
+                              {"program": src, "panic": r.get("panic")})
+                peaks = None
+                break
+            if "value" not in (r.get("result") or {}):
                 rep.inconc("VM-side measurement: accepted program (%s) does not evaluate at N=%d: %s" % (
                     label, n, json.dumps(r.get("result"))[:160]))
                 peaks = None
@@ -50,7 +71,7 @@ with QV() as qv:
         else:
             rep.violation("vm-peaks:%s" % label,
                           "tail-recursive program (%s) uses more space at N=2000 than at N=40 on the real executor: "
-                          "(stack, locals, frames, heap slots) %s -> %s; program: %s" % (label, peaks[0], peaks[1], tmpl % 2000),
+                          "(stack, locals, frames, heap slots) %s -> %s; program: %s" % (label, peaks[0], peaks[1], src),
                           {"program": tmpl, "peaks_n40": peaks[0], "peaks_n2000": peaks[1]})
     rep.validated += measured
     rep.extra["vm_side_programs_measured"] = measured
